@@ -246,7 +246,7 @@ class Track:
                     # Special case to handle zero-duration events: continue to pop new
                     # events from the pattern.
                     #--------------------------------------------------------------------------------
-                    while int(self.current_event.duration * self.timeline.ticks_per_beat) <= 0:
+                    while self._duration_to_ticks(self.current_event.duration) <= 0:
                         self.current_event = self.next_event
                         self.next_event = self.get_next_event()
 
@@ -254,8 +254,7 @@ class Track:
                         raise InvalidEventException("Interpolation is only valid for control event")
 
                     interpolating_event_fields = copy.copy(self.current_event.fields)
-                    duration = self.current_event.duration
-                    duration_ticks = duration * self.timeline.ticks_per_beat
+                    duration_ticks = self._duration_to_ticks(self.current_event.duration)
                     for key, value in self.current_event.fields.items():
                         #--------------------------------------------------------------------------------
                         # Create a new interpolating_event with patterns for each parameter to
@@ -281,6 +280,14 @@ class Track:
                 self.is_finished = True
 
         self.current_time += self.tick_duration
+
+    def _duration_to_ticks(self, duration: float) -> int:
+        """
+        Number of whole ticks in a duration given in beats.
+        Rounded before truncating, as a whole number of ticks often comes out just
+        below the integer in floats (0.29 * 100 = 28.999999999999996).
+        """
+        return int(round(duration * self.timeline.ticks_per_beat, 8))
 
     def reset_to_beat(self):
         """
